@@ -8,15 +8,15 @@ VERIF = os.path.dirname(os.path.dirname(os.path.abspath(__file__)))
 sys.path.insert(0, os.path.join(VERIF, "analysis"))
 
 TECH = {
-    "C01": "MIR term reconstruction of the SRP-6 formulas + provenance (role) rules + padding-shape rule",
+    "C01": "MIR term reconstruction of the SRP-6 formulas + provenance (role) rules + padding-shape rule + the public-key reject-set rule of C04 (no honest key refused)",
     "C02": "must-pass-through gate with polarity on the MIR CFG + whole-value-equality typing + provenance + who-may-construct census + SHA-1 transcript extraction",
-    "C03": "SHA-1 transcript extraction, big-integer term matching, who-may-call census in the client call-graph closure, constant table check, loop-idiom rule for zero stripping",
+    "C03": "SHA-1 transcript extraction, big-integer term matching, who-may-call census in the client call-graph closure, constant table check, loop-idiom rule for zero stripping (lock-step loop semantics with loop-exit / every-iteration conditions), panic-obligation discharge over the SRP call-graph closure (totality)",
     "C04": "abstract evaluation of the byte-wise validity check to a reject set (product domain) + who-may-construct census + gate",
     "C05": "return-value provenance, must-write-on-all-paths (effect summary), FRESH-random summary, write-frame, transcript",
-    "C06": "transcript extraction + sibling cross-check of argument roles over the three modules + gate/whole-value rules",
+    "C06": "transcript extraction + sibling cross-check of argument roles over the three modules + gate/whole-value rules + panic-obligation discharge over the world-proof call-graph closure (totality)",
     "C07": "loop-body transfer-function reconstruction (term builder) + field-write census + traversal idiom",
     "C08": "as C07 + HMAC transcript and constant comparison of the two separately coded key derivations",
-    "C09": "HMAC->RC4->drop wiring by provenance, direction-constant table, RC4 step-term matching, field-write census",
+    "C09": "HMAC->RC4->drop wiring by provenance, direction-constant table, RC4 step-term matching (closure and loop forms, every round / every byte), field-write census, header-framing agreement of encoder and decoder (byte-term rules of C10)",
     "C10": "byte-term abstract interpretation of encoder/decoder + interval/known-bit reasoning on the threshold + keystream byte count",
     "C11": "who-may-call census (read_exact/write_all only), error-propagation rule, no-write-frame-before-fallible-I/O rule on the CFG, wire-layout byte terms, facade delegation by provenance",
     "C12": "type-closure census (ownership non-interference), item census (no statics/unsafe/interior mutability), rustc Send facts, split/clone/unsplit identity by provenance, unsplit gate; compile_fail witnesses",
